@@ -91,6 +91,10 @@ enum Prev {
     TimedOutBlocker,
     /// cancelled while parked; a destructor on its stack yields during the unwind
     CancelledYieldingDrop,
+    /// park_timeout(1 ms) whose expiry meets an unpark() issued by the main thread at the same instant
+    TimedOutParkVsUnpark,
+    /// Blocker::park(1 ms) whose expiry meets Blocker::unpark() at the same instant
+    TimedOutBlockerVsUnpark,
 }
 
 /// how the fresh coroutine ends after its first park returned
@@ -154,8 +158,28 @@ fn fresh_start(e: &'static Engine, prev: Prev, workers: usize, detached: bool, e
                 let b = Blocker::current();
                 let _ = b.park(Some(Duration::from_millis(1)));
             }
+            Prev::TimedOutParkVsUnpark => coroutine::park_timeout(Duration::from_millis(1)),
+            Prev::TimedOutBlockerVsUnpark => {
+                let b = Blocker::current();
+                *SLOT.lock().unwrap() = Some(b.clone());
+                let _ = b.park(Some(Duration::from_millis(1)));
+            }
         }
     });
+    match prev {
+        Prev::TimedOutParkVsUnpark => {
+            e.vsleep(1_000_000);
+            p.coroutine().unpark();
+        }
+        Prev::TimedOutBlockerVsUnpark => {
+            e.vsleep(1_000_000);
+            // (the blocker is published before the park; if P has not got there yet the unpark simply comes first)
+            if let Some(b) = SLOT.lock().unwrap().take() {
+                b.unpark();
+            }
+        }
+        _ => {}
+    }
     if matches!(prev, Prev::CancelledParked | Prev::CancelledRunnable | Prev::CancelledYieldingDrop) {
         unsafe { p.coroutine().cancel() };
     }
@@ -232,8 +256,19 @@ pub fn build(quick: bool) -> Vec<Scenario> {
     v.push(Scenario::new("C15", "privacy", "local.privacy.n2.r1.w1", Arc::new(|e| privacy(e, 1, 2, 1))));
     v.push(Scenario::new("C15", "privacy", "local.privacy.n2.r2.w2", Arc::new(|e| privacy(e, 2, 2, 2))));
     v.push(Scenario::new("C15", "privacy", "local.privacy.n3.r1.w2", Arc::new(|e| privacy(e, 2, 3, 1))));
-    for prev in [Prev::Returned, Prev::Panicked, Prev::CancelledParked, Prev::CancelledRunnable, Prev::CancelledYieldingDrop, Prev::TimedOutPark, Prev::TimedOutSleep, Prev::TimedOutBlocker] {
-        let timed = matches!(prev, Prev::TimedOutPark | Prev::TimedOutSleep | Prev::TimedOutBlocker);
+    for prev in [
+        Prev::Returned,
+        Prev::Panicked,
+        Prev::CancelledParked,
+        Prev::CancelledRunnable,
+        Prev::CancelledYieldingDrop,
+        Prev::TimedOutPark,
+        Prev::TimedOutSleep,
+        Prev::TimedOutBlocker,
+        Prev::TimedOutParkVsUnpark,
+        Prev::TimedOutBlockerVsUnpark,
+    ] {
+        let timed = matches!(prev, Prev::TimedOutPark | Prev::TimedOutSleep | Prev::TimedOutBlocker | Prev::TimedOutParkVsUnpark | Prev::TimedOutBlockerVsUnpark);
         let s = Scenario::new("C15", "fresh_start", format!("fresh.after_{:?}.w1", prev).to_lowercase(), Arc::new(move |e| fresh_start(e, prev, 1, false, End::Returns)));
         v.push(if timed { s.clone().t2() } else { s });
         if !quick {
